@@ -162,6 +162,8 @@ def hook_conditions(world, events):
 
 
 def optimizer_setting(spec):
+    """OptimizerSetting of the library for spec["opt"].  With opt["default_args"] the setting is created WITHOUT the
+    optimizer_args argument (library default); a new setting object (and a new args dict) on every call."""
     import torchphysics as tp
     o = spec["opt"]
     kw = {}
@@ -169,6 +171,9 @@ def optimizer_setting(spec):
         s = o["sched"]
         kw = dict(scheduler_class=W.sched_class(s["cls"]), scheduler_args=dict(s["args"]),
                   scheduler_frequency=int(s.get("freq", 1)))
+    if o.get("default_args"):
+        assert not o.get("args")
+        return tp.OptimizerSetting(W.opt_class(o["cls"]), lr=o["lr"], **kw)
     return tp.OptimizerSetting(W.opt_class(o["cls"]), lr=o["lr"], optimizer_args=W.opt_args(o), **kw)
 
 
@@ -193,7 +198,7 @@ class RealRun:
 
 
 def run_real(spec, steps, lib_callbacks=None, ckpt_path=None, crash_at=None, watch=None, world=None,
-             record_opt=True, probe=None):
+             record_opt=True, probe=None, setting=None):
     """Build a fresh world, train it `steps` steps through Solver + Trainer.  `lib_callbacks(world)` returns the
     library callbacks to install (before the harness recorder).  Exceptions other than SimulatedCrash propagate."""
     import torchphysics as tp
@@ -210,12 +215,18 @@ def run_real(spec, steps, lib_callbacks=None, ckpt_path=None, crash_at=None, wat
     r.val_only_names = [n for n, _ in vo]
     r.val_only_params = [p for _, p in vo]
     r.val_only_theta0 = W.clone_state(r.val_only_params)
+    r.train_conds = list(w.train)
+    r.log_base = [len(getattr(c, "log_calls", ())) for c in w.train]
     rec = Recorder(r.params, crash_at=crash_at, watch=watch, record_opt=record_opt)
     r.rec = rec
     r.trainer = None
     handles = hook_conditions(w, rec.events)
     try:
-        solver = tp.solver.Solver(w.train, w.val, optimizer_setting=optimizer_setting(spec))
+        if setting == "solver_default":
+            solver = tp.solver.Solver(w.train, w.val)          # the Solver's own default OptimizerSetting
+        else:
+            r.setting = setting if setting is not None else optimizer_setting(spec)
+            solver = tp.solver.Solver(w.train, w.val, optimizer_setting=r.setting)
         r.solver = solver
         if probe is not None:
             rec.probe = probe(w, solver)
@@ -232,6 +243,7 @@ def run_real(spec, steps, lib_callbacks=None, ckpt_path=None, crash_at=None, wat
         for h in handles:
             h.remove()
     r.global_step = int(trainer.global_step)
+    r.cond_logs = [list(getattr(c, "log_calls", ())[b:]) for c, b in zip(r.train_conds, r.log_base)]
     r.final = W.clone_state(r.params)
     r.val_only_final = W.clone_state(r.val_only_params)
     if probe is not None:
@@ -252,6 +264,40 @@ def run_real(spec, steps, lib_callbacks=None, ckpt_path=None, crash_at=None, wat
     except Exception:
         pass
     return r
+
+
+def run_real_staged(spec):
+    """Several training stages in ONE world and ONE process: each stage has its own Solver and Trainer; conditions are
+    reused or freshly built (bystanders first, never handed to a Solver); the OptimizerSetting is a new object per stage
+    (created without optimizer_args where the stage says so), the Solver's default, or the previous stage's object
+    with `.lr` changed.  Nothing of the library is reset between stages.  -> (list of RealRun, exception or None)"""
+    w = W.build_base(spec)
+    out, train, prev_setting = [], None, None
+    for si, st in enumerate(spec["stages"]):
+        if st.get("reuse") and train is not None:
+            pass
+        else:
+            W.build_conditions(w, st.get("bystanders", []), "s%db" % si)
+            train = W.build_conditions(w, st["conds"], "s%dc" % si)
+        w.train, w.val = train, []
+        pseudo = {"opt": st["opt"], "trainer": st.get("trainer", {}), "vals": []}
+        if st["opt"].get("default_setting"):
+            setting = "solver_default"
+        elif st.get("same_setting") and prev_setting is not None:
+            setting = prev_setting
+            setting.lr = st["opt"]["lr"]          # the user changes the learning rate of his setting object
+        else:
+            setting = optimizer_setting(pseudo)
+        try:
+            r = run_real(pseudo, st["steps"], world=w, setting=setting)
+        except Exception as e:
+            return out, e
+        prev_setting = setting if setting != "solver_default" else None
+        wl = W.world_learnables(w)
+        r.world_names = [n for n, _ in wl]
+        r.world_state = W.clone_state([p for _, p in wl])
+        out.append(r)
+    return out, None
 
 
 def maxdiff(a, b):
